@@ -203,12 +203,26 @@ def impl(op, backend):
              int(d2.is_leap_year()), int(d2.is_long_year()))
         if a != b:
             return "err DateTimeGettersDiffer %r %r" % (a, b)
+        # ... and on a zone-aware DateTime: the calendar getters read the wall date, whatever the zone's offset did since 1 January
+        import zlib
+        h = zlib.crc32(repr(op).encode())
+        zn = _GETTER_ZONES[h % len(_GETTER_ZONES)]
+        hh, mi = _GETTER_TIMES[(h >> 8) % len(_GETTER_TIMES)]
+        tz = _H.get(("tz", zn)) or _H.setdefault(("tz", zn), __import__("pendulum").timezone(zn))
+        d3 = _H["DateTime"](op[1], op[2], op[3], hh, mi, tzinfo=tz, fold=(h >> 16) & 1)
+        c = (int(d3.day_of_week), d3.day_of_year, d3.week_of_year, d3.week_of_month, d3.days_in_month, d3.quarter,
+             int(d3.is_leap_year()), int(d3.is_long_year()))
+        if a != c:
+            return "err AwareDateTimeGettersDiffer %s %02d:%02d %r %r" % (zn, hh, mi, a, c)
         return "ok " + " ".join(str(x) for x in a)
     if k[0] == "g":
         return _getter_impl(op)
     raise ValueError(k)
 
 
+_GETTER_ZONES = ("Europe/Paris", "Australia/Lord_Howe", "America/New_York", "Pacific/Apia", "UTC", "Asia/Kolkata", "America/Sao_Paulo",
+                 "Europe/London", "Pacific/Kiritimati", "America/St_Johns")
+_GETTER_TIMES = ((0, 0), (0, 29), (0, 59), (1, 0), (2, 30), (12, 30), (23, 0), (23, 59))
 _UTC = dt.timezone.utc
 _EPOCH_UTC = dt.datetime(1970, 1, 1, tzinfo=_UTC)
 
